@@ -1077,3 +1077,98 @@ def rule_clamp_sign_checked(ctx):
             ctx.holds("NEGCLAMP", key, f.where(), "a request clamped to `<length> - posn` is compared with 0 before it is used", nontrivial=True)
     ctx.floor("NEGCLAMP", 5, n, "(read routines that clamp a request to the rest of the element)")
     return n
+
+
+def rule_origin_applied_first(ctx):
+    """ORIGINFIRST (C01): Hseek takes an offset relative to an origin (start, current position, end) and turns it into an absolute
+    position by adding the current position or the element length.  Every decision it takes about the offset — "nothing to
+    do", range checks, promotion to linked blocks — is a statement about the *absolute* position, so no condition may read
+    `offset` before both origin adjustments have been made.  A test placed earlier compares a relative offset with an absolute
+    position: Hseek(aid, 10, DF_CURRENT) at position 10 then returns success without moving."""
+    from .codec import ast_walk
+    prog = ctx.prog
+    n = 0
+    for fn in ("Hseek",):
+        f = prog.func(fn)
+        if f is None or not f.raw.get("ast"):
+            ctx.unrecognised("ORIGINFIRST", "ORIGINFIRST:%s" % fn, "-", "%s not found" % fn)
+            continue
+        params = [q[0] for q in f.params]
+        order = []
+        ast_walk(f.raw["ast"], lambda nd, st: (order.append((nd, list(st))), True)[1])
+        adj_idx = []
+        offv = None
+        for i, (nd, st) in enumerate(order):
+            if nd[0] == "s":
+                for x in walk(nd[1], True):
+                    if x[0] == "asg" and x[1] == "+=" and kind(strip(x[2])) == "var" and strip(x[2])[1] in params:
+                        encl = [s_ for s_ in st if s_[0] == "if" and any(y[0] == "var" and y[1] in params and y[1] != strip(x[2])[1] for y in walk(s_[1], True))]
+                        if encl:
+                            adj_idx.append(i)
+                            offv = strip(x[2])[1]
+        if len(adj_idx) < 2 or offv is None:
+            ctx.unrecognised("ORIGINFIRST", "ORIGINFIRST:%s" % fn, f.where(), "the two origin adjustments (offset += position / += length) were not found")
+            continue
+        last_adj = max(adj_idx)
+        k = 0
+        for i, (nd, st) in enumerate(order):
+            if nd[0] != "if":
+                continue
+            if not any(y[0] == "var" and y[1] == offv for y in walk(nd[1], True)):
+                continue
+            k += 1
+            n += 1
+            key = "ORIGINFIRST:%s#%d" % (fn, k)
+            line = nd[-3] if isinstance(nd[-3], int) else f.line
+            if i < last_adj:
+                ctx.violated("ORIGINFIRST", key, f.where(line), "`%s` is tested while `%s` may still be relative to DF_CURRENT / DF_END: the origin adjustments come later" % (render(nd[1])[:60], offv))
+            else:
+                ctx.holds("ORIGINFIRST", key, f.where(line), "`%s` is evaluated after both origin adjustments" % render(nd[1])[:60], nontrivial=True)
+    ctx.floor("ORIGINFIRST", 2, n, "(decisions Hseek takes about the offset)")
+    return n
+
+
+def rule_clamp_to_tested_bound(ctx):
+    """CLAMPSAME (C01, C07): `if (x > a) x = b;` with a and b both variables or fields is a clamp: it is meant to bring x back inside
+    a limit, and it does so only when the limit it tests is the limit it assigns.  With two different quantities (the old length
+    tested, the new one assigned) the test does not fire when it should — the position survives a truncation and points outside
+    the element.  Instances: every one-armed `if` whose only statement assigns the compared variable another variable/field."""
+    from .codec import ast_walk
+    prog = ctx.prog
+    n = 0
+    occ = {}
+    for f in prog.lib_funcs():
+        ast = f.raw.get("ast")
+        if not ast:
+            continue
+        found = []
+
+        def vis(nd, st):
+            if nd[0] == "if" and nd[3] is None:
+                c = strip(nd[1])
+                if kind(c) == "bin" and c[1] in (">", ">=", "<", "<="):
+                    arm = nd[2]
+                    kids = arm[1] if arm[0] == "block" else [arm]
+                    if len(kids) == 1 and kids[0][0] == "s":
+                        e = strip(kids[0][1])
+                        if kind(e) == "asg" and e[1] == "=":
+                            X, B = strip(e[2]), strip(e[3])
+                            for L, R in ((strip(c[2]), strip(c[3])), (strip(c[3]), strip(c[2]))):
+                                if render(X) == render(L) and kind(R) in ("var", "mem") and kind(B) in ("var", "mem"):
+                                    found.append((nd, render(X), render(R), render(B)))
+            return True
+
+        ast_walk(ast, vis)
+        for nd, X, A, B in found:
+            n += 1
+            key = "CLAMPSAME:%s:%s" % (f.name, X[:30])
+            occ[key] = occ.get(key, 0) + 1
+            if occ[key] > 1:
+                key += "#%d" % occ[key]
+            line = nd[-3] if isinstance(nd[-3], int) else f.line
+            if A == B:
+                ctx.holds("CLAMPSAME", key, f.where(line), "`%s` is clamped to the bound it is tested against (`%s`)" % (X[:40], A[:40]), nontrivial=True)
+            else:
+                ctx.violated("CLAMPSAME", key, f.where(line), "`%s` is tested against `%s` but set to `%s`: when the two differ the clamp does not fire where it should" % (X[:40], A[:40], B[:40]))
+    ctx.floor("CLAMPSAME", 10, n, "(clamps between variables)")
+    return n
